@@ -183,7 +183,16 @@ def handle (req impl : String) : String × String :=
           | some u => (alg7 r n op o u _p (_id.getD []) true).isSome
           | none => false
         (m, if u.isNone then "na" else if spec = decide (impl = "true") then "ok"
-            else if spec then "fail:authentic-owner-password-rejected" else "fail:owner-password-accepted-that-algorithm-7-refuses")
+            else if spec then
+              -- classify by the padded user password Algorithm 7 recovers from /O
+              let rec32 := alg7recover r n op o
+              let cut := rec32.takeWhile (· ≠ 0x28)
+              let why := if rec32 = pwPadding then "user-password-empty"
+                else if padPassword cut ≠ rec32 then "paren-in-user-password"
+                else if utf8Lossy cut ≠ cut then "utf8-cut-at-32"
+                else "other"
+              "fail:authentic-owner-password-rejected:" ++ why
+            else "fail:owner-password-accepted-that-algorithm-7-refuses")
       else
         let m := match u with
           | none => "err"
